@@ -70,6 +70,11 @@ RegexSearch(r, buf) ==
                 i == MinOf(S) IN
             [found |-> TRUE, s |-> i, e |-> IF isX(i) THEN RunEndFrom(buf, i, X) ELSE i]
       [] r = "Ystar" -> [found |-> TRUE, s |-> 0, e |-> RunEndFrom(buf, 0, Y)]
+      [] r = "QnotZ" ->     \* (?<!Z)Q : a Q not preceded, INSIDE THE SEARCH BUFFER, by a Z
+            LET S == {i \in 0..(Len(buf) - 1) : buf[i + 1] = 81 /\ (i = 0 \/ buf[i] # 90)} IN
+            IF S = {} THEN NoMatch ELSE [found |-> TRUE, s |-> MinOf(S), e |-> MinOf(S) + 1]
+      [] r = "caretX" ->    \* ^X : only at the very start of the search buffer
+            IF Len(buf) >= 1 /\ buf[1] = X THEN [found |-> TRUE, s |-> 0, e |-> 1] ELSE NoMatch
       [] OTHER -> NoMatch
 
 \* can bytes appended after the buffer lengthen or move a match that ends at its end?
@@ -77,7 +82,8 @@ RegexOpenEnded(r) == r \in {"Xplus", "Xplus_or_end", "Ystar", "crlf", "EOS"}
 
 \* ------------------------------------------------------------ leaf reads
 \* every leaf read returns [ok, cur, v, reads, regs]
-Rd(raw, a, b) == [lo |-> SliceLo(raw, a), hi |-> SliceHi(raw, a, b), want |-> b - a, window |-> FALSE]
+\* open: a scan whose result bytes appended to the input could change (read-to-end, greedy match at the end)
+Rd(raw, a, b) == [lo |-> SliceLo(raw, a), hi |-> SliceHi(raw, a, b), want |-> b - a, window |-> FALSE, open |-> FALSE]
 
 ReadInt(raw, cur, n, signed, big) ==
     LET chunk == PySlice(raw, cur, cur + n) IN
@@ -107,16 +113,20 @@ ScanRegex(raw, cur, sz, sbl) ==
     IF sz.r = "EOS"
     THEN LET next == cur + (Len(raw) - cur) IN
          [ok |-> TRUE, cur |-> next, v |-> PySlice(raw, cur, next),
-          reads |-> <<WindowRd(raw, cur, sbl), Rd(raw, cur, next)>>, delim |-> <<>>, remember |-> FALSE]
+          reads |-> <<[WindowRd(raw, cur, sbl) EXCEPT !.open = TRUE], Rd(raw, cur, next)>>, delim |-> <<>>, remember |-> FALSE]
     ELSE LET mt == RegexSearch(sz.r, w)
              count == IF sz.incl THEN mt.e ELSE mt.s
              extra == IF ~sz.incl /\ sz.consume THEN mt.e - mt.s ELSE 0
              next == cur + count
          IN IF ~mt.found
             THEN [ok |-> FALSE, cur |-> cur, v |-> <<>>, reads |-> <<WindowRd(raw, cur, sbl)>>, delim |-> <<>>, remember |-> FALSE]
-            ELSE [ok |-> TRUE, cur |-> next + extra, v |-> PySlice(raw, cur, next),
-                  reads |-> <<WindowRd(raw, cur, sbl), Rd(raw, cur, next)>>,
-                  delim |-> SubSeq(w, mt.s + 1, mt.e), remember |-> ~sz.incl]
+            ELSE LET open == /\ sz.r \in {"Xplus", "Ystar", "Xplus_or_end"}
+                             /\ cur + Len(w) >= Len(raw)
+                             \* greedy match touching the end, or '$' (also matches before a final newline)
+                             /\ (mt.e = Len(w) \/ (sz.r = "Xplus_or_end" /\ mt.e >= Len(w) - 1))
+                 IN [ok |-> TRUE, cur |-> next + extra, v |-> PySlice(raw, cur, next),
+                     reads |-> <<[WindowRd(raw, cur, sbl) EXCEPT !.open = open], Rd(raw, cur, next)>>,
+                     delim |-> SubSeq(w, mt.s + 1, mt.e), remember |-> ~sz.incl]
 
 \* ------------------------------------------------------------ positioning
 PadTo(cur, start, a) == PyMod(a - PyMod(cur - start, a), a)
